@@ -74,7 +74,10 @@ class Sched:
                     return c
             return min(idxs)
         if k == "stale":  # adversarial: prefer blocks popped least recently / most often deferred
-            return max(idxs, key=lambda i: (-(self.log.count(i)), i))
+            cnt = {}
+            for j in self.log[-200:]:
+                cnt[j] = cnt.get(j, 0) + 1
+            return max(idxs, key=lambda i: (-cnt.get(i, 0), i))
         raise AssertionError(k)
 
 
@@ -138,6 +141,15 @@ def gen_cfg(rng, nmax=8, nvars=5):
             "edef": edef, "emaybe": emaybe, "init": init}
 
 
+def _bound(c):
+    """assBound / liveBound of Props/C09.lean, over-approximated: (2*blocks*vars + 1) * (blocks + 1)"""
+    n = c["n"]
+    vs = set(c["edef"]) | set(c["emaybe"]) | set(c["init"])
+    for b in range(n):
+        vs |= set(c["used"][b]) | set(c["assigned"][b])
+    return (2 * n * (2 * len(vs) + 1) + 1) * (n + 1)
+
+
 def build_real(c):
     """abstract cfg -> real CFG/BB objects + stats"""
     from guppylang_internals.cfg.bb import VariableStats
@@ -172,6 +184,7 @@ def vnum(s):
 
 
 def real_live(c, inc, sched):
+    sched.limit = _bound(c)
     from guppylang_internals.cfg.analysis import LivenessAnalysis
 
     cfg, stats = build_real(c)
@@ -188,6 +201,7 @@ def real_live(c, inc, sched):
 
 
 def real_ass(c, sched):
+    sched.limit = _bound(c)
     from guppylang_internals.cfg.analysis import AssignmentAnalysis
 
     cfg, stats = build_real(c)
@@ -207,6 +221,7 @@ def real_ass(c, sched):
 
 
 def real_analyze(c, sched):
+    sched.limit = _bound(c)
     """CFG.analyze on blocks with real AST statements producing the wanted use/assign sets."""
     cfg, _ = build_real(c)
     for b in range(c["n"]):
@@ -432,6 +447,8 @@ def tie(ctx):
 
     lines, meta = [], []
     for name, c in cases:
+        if len(ctx.violations) >= 5:
+            break  # enough concrete failing inputs; keep the run short
         for pol in _policies(ctx, c, False):
             for kind in ("live1", "live0", "ass", "analyze"):
                 s = Sched(pol, rng=__import__("random").Random(pol[1]) if pol[0] == "rand" else None)
